@@ -799,6 +799,10 @@ func runTimepbAddStd(c *core.Ctx, pkg *packages.Package, fns map[string]*ast.Fun
 					c.Ok("TIME.std", con, "nil for a nil timestamp", rp, src)
 					continue
 				}
+				if isCloneOf(info, r, tP) && guardZero {
+					c.Ok("TIME.std", con, "zero duration: a deep copy of t (proto.Clone)", rp, src)
+					continue
+				}
 				if u, ok := r.(*ast.UnaryExpr); ok && u.Op == token.AND {
 					if id, ok := u.X.(*ast.Ident); ok && fresh[info.ObjectOf(id)] == "copy" && guardZero {
 						c.Ok("TIME.std", con, "zero duration: address of a fresh copy of *t", rp, src)
@@ -1403,6 +1407,13 @@ func runTimepbAdd(c *core.Ctx, pkg *packages.Package, fns map[string]*ast.FuncDe
 		st := r.st
 		con := fmt.Sprintf("timepb.Add return#%d path[%s]", i+1, strings.Join(st.path, " && "))
 		rp := c.PosStr(pkg.Fset, r.pos)
+		// proto.Clone(t).(*Timestamp): a deep copy of t (A3), i.e. a fresh value equal to t
+		if isCloneOf(info, r.expr, tP) {
+			st = st.clone()
+			st.local, st.copyOfT, st.ptr = "\x00clone", true, true
+			st.fields = map[string]lin{"Seconds": {tS: 1, ok: true}, "Nanos": {tN: 1, ok: true}}
+			r.expr = &ast.Ident{Name: "\x00clone"}
+		}
 		// nil return on t == nil is excluded by precondition; any other return must be &local
 		u, ok := ast.Unparen(r.expr).(*ast.UnaryExpr)
 		var lid *ast.Ident
@@ -1541,4 +1552,18 @@ func desugarSwitch(s ast.Stmt) ast.Stmt {
 		return &ast.EmptyStmt{}
 	}
 	return tail
+}
+
+// isCloneOf: e is proto.Clone(<param>).(*T), possibly parenthesised.
+func isCloneOf(info *types.Info, e ast.Expr, param string) bool {
+	ta, ok := ast.Unparen(e).(*ast.TypeAssertExpr)
+	if !ok || ta.Type == nil {
+		return false
+	}
+	call, ok := ast.Unparen(ta.X).(*ast.CallExpr)
+	if !ok || len(call.Args) != 1 || core.QualName(core.CalleeObj(info, call)) != "google.golang.org/protobuf/proto.Clone" {
+		return false
+	}
+	id, ok := ast.Unparen(call.Args[0]).(*ast.Ident)
+	return ok && id.Name == param
 }
